@@ -2,15 +2,17 @@
 (* Transaction templates shared by MC_Ledger, Trace_Ledger and the Go harness *)
 (* harness/inpkg/kernel/zz_verif_ledger_test.go (vgTemplates). Amounts are    *)
 (* whole units of the asset; BTC has the real capacity 2500.                  *)
-Dep(a, n)        == [kind |-> "deposit", asset |-> a, amt |-> n, ins |-> <<>>, outs |-> <<n>>, refs |-> {}, info |-> "std"]
-DepAlt(a, n)     == [kind |-> "deposit", asset |-> a, amt |-> n, ins |-> <<>>, outs |-> <<n>>, refs |-> {}, info |-> "alt"]
-Tr(a, ins, outs) == [kind |-> "transfer", asset |-> a, amt |-> 0, ins |-> ins, outs |-> outs, refs |-> {}, info |-> "-"]
-Sub(a, ins, outs) == [kind |-> "submit", asset |-> a, amt |-> 0, ins |-> ins, outs |-> outs, refs |-> {}, info |-> "-"]
-Clm(ins, outs, r) == [kind |-> "claim", asset |-> "XIN", amt |-> 0, ins |-> ins, outs |-> outs, refs |-> {r}, info |-> "-"]
+Dep(a, n)        == [kind |-> "deposit", asset |-> a, amt |-> n, ins |-> <<>>, outs |-> <<n>>, refs |-> {}, info |-> "std", bad |-> FALSE]
+DepAlt(a, n)     == [kind |-> "deposit", asset |-> a, amt |-> n, ins |-> <<>>, outs |-> <<n>>, refs |-> {}, info |-> "alt", bad |-> FALSE]
+Tr(a, ins, outs) == [kind |-> "transfer", asset |-> a, amt |-> 0, ins |-> ins, outs |-> outs, refs |-> {}, info |-> "-", bad |-> FALSE]
+Sub(a, ins, outs) == [kind |-> "submit", asset |-> a, amt |-> 0, ins |-> ins, outs |-> outs, refs |-> {}, info |-> "-", bad |-> FALSE]
+\* a transfer whose outputs do not add up to its inputs (more: TI, less: TD): never valid
+BadTr(a, ins, outs) == [kind |-> "transfer", asset |-> a, amt |-> 0, ins |-> ins, outs |-> outs, refs |-> {}, info |-> "-", bad |-> TRUE]
+Clm(ins, outs, r) == [kind |-> "claim", asset |-> "XIN", amt |-> 0, ins |-> ins, outs |-> outs, refs |-> {r}, info |-> "-", bad |-> FALSE]
 
-TxU == {"D1", "D2", "D3", "D4", "D5", "D6", "T1", "T2", "T3", "W1", "X1", "K1", "K2"}
+TxU == {"D1", "D2", "D3", "D4", "D5", "D6", "T1", "T2", "T3", "TI", "TD", "W1", "X1", "K1", "K2"}
 \* processing order inside a batch (the harness grinds the real hashes into this order)
-OrdU == <<"D1", "D2", "D3", "D4", "D5", "D6", "T1", "T2", "T3", "W1", "X1", "K1", "K2">>
+OrdU == <<"D1", "D2", "D3", "D4", "D5", "D6", "T1", "T2", "T3", "TI", "TD", "W1", "X1", "K1", "K2">>
 TxDefU == [t \in TxU |->
    CASE t = "D1" -> Dep("BTC", 2000)
      [] t = "D2" -> Dep("BTC", 1000)
@@ -21,6 +23,8 @@ TxDefU == [t \in TxU |->
      [] t = "T1" -> Tr("BTC", << <<"D1", 1>> >>, <<1500, 500>>)
      [] t = "T2" -> Tr("BTC", << <<"T1", 1>>, <<"D3", 1>> >>, <<1900>>)
      [] t = "T3" -> Tr("BTC", << <<"T1", 1>> >>, <<1500>>)              \* competes with T2 for T1's first output
+     [] t = "TI" -> BadTr("BTC", << <<"D3", 1>> >>, <<500>>)              \* creates 100 out of nothing
+     [] t = "TD" -> BadTr("BTC", << <<"D3", 1>> >>, <<300>>)              \* destroys 100
      [] t = "W1" -> Sub("BTC", << <<"T1", 2>> >>, <<300, 200>>)          \* first output leaves the ledger
      [] t = "X1" -> Dep("XIN", 10)
      [] t = "K1" -> Clm(<< <<"X1", 1>> >>, <<1, 9>>, "W1")
